@@ -6,7 +6,7 @@ EXTENDS CarRules
 
 (* ================================== state machine =================================== *)
 VARIABLES dag, root,   \* the served DAG and the CID (node id) the content path starts at
-          req,         \* [path, scope, rng, dups]
+          req,         \* [path, scope, rng, dups \in Policies, via \in Vias]
           term, need,  \* Terminal / Need of the current request (PART 1)
           todo,        \* PART 2: block loads still to come
           car, carRoot,\* the CAR: sequence of [n |-> node id (0 = not a block of the DAG), ok |-> bytes hash to the CID]
@@ -14,7 +14,7 @@ VARIABLES dag, root,   \* the served DAG and the CID (node id) the content path 
           rawResp      \* last ?format=raw response [want, got, ok]
 vars == <<dag, root, req, term, need, todo, car, carRoot, phase, rawResp>>
 
-NoReq == [path |-> <<>>, scope |-> "block", rng |-> NoRange, dups |-> FALSE]
+NoReq == [path |-> <<>>, scope |-> "block", rng |-> NoRange, dups |-> "n", via |-> "http"]
 NoRaw == [want |-> 0, got |-> 0, ok |-> TRUE]
 
 \* plan = the block loads the server is going to perform (PART 2); unused by the trace spec
@@ -34,7 +34,7 @@ Request(d, r, q) == RequestWith(d, r, q, LoadSeq(d, r, q))
 Load ==
   /\ phase = "stream" /\ todo # <<>>
   /\ LET n == Head(todo) IN
-       car' = IF ~req.dups /\ n \in Ids(car) THEN car      \* AllowDuplicatePuts(false): dropped
+       car' = IF ~WriterKeeps(req) /\ n \in Ids(car) THEN car      \* AllowDuplicatePuts(false): dropped
               ELSE Append(car, [n |-> n, ok |-> TRUE])
   /\ todo' = Tail(todo)
   /\ UNCHANGED <<dag, root, req, term, need, carRoot, phase, rawResp>>
@@ -68,7 +68,8 @@ ObservedRaw(at, p, got, ok) ==
 (* ==================================== the property ================================== *)
 AllBlocksVerify     == \A i \in DOMAIN car : car[i].ok
 OnlyFromDag         == \A i \in DOMAIN car : car[i].n \in DOMAIN dag
-DupsOnlyIfRequested == ~req.dups => Cardinality(Ids(car)) = Len(car)      \* no block twice
+\* for EVERY policy other than an explicit "y" -- also the unspecified one, through either entry point
+DupsOnlyIfRequested == req.dups # "y" => Cardinality(Ids(car)) = Len(car)      \* no block twice
 RootIsTerminal      == phase = "done" => carRoot = term
 Sufficient          == phase = "done" => need \subseteq Ids(car)
 RawExact            == rawResp.ok /\ rawResp.got = rawResp.want
@@ -95,6 +96,7 @@ Next == \/ /\ phase = "idle" /\ rawResp = NoRaw        \* one request per behavi
 Spec == Init /\ [][Next]_vars
 
 TypeOK == /\ phase \in {"idle", "stream", "done"}
+          /\ req.dups \in Policies /\ req.via \in Vias
           /\ need \subseteq DOMAIN dag
           /\ \A i \in DOMAIN car : car[i].n \in Nat /\ car[i].ok \in BOOLEAN
 =============================================================================
